@@ -131,7 +131,7 @@ Qed.
 (* a match that is not exhaustive is rejected, and it does get stuck: match now { 0 => 10 } *)
 Definition bad_match_nonexhaustive : xprogram := mkXProg [] [] [] [XMatch XNow [(MLit 0, XLit 10)]].
 Lemma bad_match_nonexhaustive_rejected :
-  tc_prog an0 bad_match_nonexhaustive = None /\ ret_of (mkLenient [] [] []) bad_match_nonexhaustive = Some TNum /\
+  tc_prog an0 bad_match_nonexhaustive = None /\ tc_prog (mkLenient [] [] []) bad_match_nonexhaustive = None /\
   xrun 20 bad_match_nonexhaustive [[]; []] = Stuck E_NOMATCH.
 Proof. vm_compute. repeat split. Qed.
 
@@ -158,7 +158,7 @@ Proof. vm_compute. repeat split. Qed.
 Definition bad_pattern_type : xprogram :=
   mkXProg [] [] [] [XMatch (XCon 50%N 2 None) [(MLit 0, XLit 1); (MWild, XLit 0)]].
 Lemma bad_pattern_type_rejected :
-  tc_prog an_T bad_pattern_type = None /\ ret_of (mkLenient [] [] sums_T) bad_pattern_type = Some TNum /\
+  tc_prog an_T bad_pattern_type = None /\ tc_prog (mkLenient [] [] sums_T) bad_pattern_type = None /\
   xrun 20 bad_pattern_type [[]] = Stuck E_PAT.
 Proof. vm_compute. repeat split. Qed.
 
@@ -174,3 +174,60 @@ Definition bad_self_shape : xprogram :=
   mkXProg [GFun 1%N [] (XLet (PTup [PVar 3%N; PVar 4%N]) (XSelfS (STup [SNum; SNum])) (XBin OAdd (XVar 3%N) (XVar 4%N)))] [] [] [XApp (XVar 1%N) []].
 Lemma bad_self_shape_rejected : tc_prog an0 bad_self_shape = None.
 Proof. vm_compute. reflexivity. Qed.
+
+(* ---- the LENIENT configuration follows the repaired typing.rs: the witnesses of the repaired findings are rejected by it too,
+   the witnesses of what typing.rs still lets through are still accepted by it (and only by it) ---- *)
+Definition len0 : annots := mkLenient [] [] [].
+Definition len_T : annots := mkLenient [] [] sums_T.
+
+(* T6 (repaired): (match now { 0 => 1, _ => (1, 2) }) + 1 *)
+Lemma lenient_rejects_T6_match_arms : tc_prog len0 bad_match_arms = None.
+Proof. vm_compute. reflexivity. Qed.
+(* T7 on a number (repaired): match now { 0 => 10 } *)
+Lemma lenient_rejects_T7_number : tc_prog len0 bad_match_nonexhaustive = None.
+Proof. vm_compute. reflexivity. Qed.
+(* T8 (repaired): a literal pattern on a sum value; a constructor pattern on a number: match now { K2 => 1, _ => 0 }; a tuple pattern
+   on a number: match now { (0, _) => 7, _ => 3 }; a tuple pattern of another width: match (1, 2) { (0, 0, _) => 1, _ => 2 }; a
+   binder for a constructor without payload: match K2 { K2(q) => q, _ => 2 }; a tuple pattern for a number payload:
+   match K1(1) { K1((a, b)) => a, _ => 0 } *)
+Definition bad_pat_ctor_on_number : xprogram := mkXProg [] [] [] [XMatch XNow [(MCon 2 None, XLit 1); (MWild, XLit 0)]].
+Definition bad_pat_tuple_on_number : xprogram := mkXProg [] [] [] [XMatch XNow [(MTup [MLit 0; MWild], XLit 7); (MWild, XLit 3)]].
+Definition bad_pat_tuple_longer : xprogram :=
+  mkXProg [] [] [] [XMatch (XTuple [XLit 1; XLit 2]) [(MTup [MLit 0; MLit 0; MWild], XLit 1); (MWild, XLit 2)]].
+Definition bad_pat_binder_no_payload : xprogram :=
+  mkXProg [] [] [] [XMatch (XCon 50%N 2 None) [(MCon 2 (Some (PVar 4%N)), XVar 4%N); (MWild, XLit 2)]].
+Definition bad_pat_payload_tuple : xprogram :=
+  mkXProg [] [] [] [XMatch (XCon 50%N 1 (Some (XLit 1))) [(MCon 1 (Some (PTup [PVar 4%N; PVar 5%N])), XVar 4%N); (MWild, XLit 0)]].
+Lemma lenient_rejects_T8_patterns :
+  tc_prog len_T bad_pattern_type = None /\ tc_prog len_T bad_pat_ctor_on_number = None /\ tc_prog len0 bad_pat_tuple_on_number = None /\
+  tc_prog len0 bad_pat_tuple_longer = None /\ tc_prog len_T bad_pat_binder_no_payload = None /\ tc_prog len_T bad_pat_payload_tuple = None.
+Proof. vm_compute. repeat split. Qed.
+Lemma strict_rejects_T8_patterns :
+  tc_prog an_T bad_pat_ctor_on_number = None /\ tc_prog an0 bad_pat_tuple_on_number = None /\
+  tc_prog an0 bad_pat_tuple_longer = None /\ tc_prog an_T bad_pat_binder_no_payload = None /\ tc_prog an_T bad_pat_payload_tuple = None.
+Proof. vm_compute. repeat split. Qed.
+(* T9 as the scrutinee (repaired): match K1 { K1(x) => x + 1, _ => 0 } where K1 carries a number: for typing.rs K1 alone is a function *)
+Lemma lenient_rejects_T9_scrutinee : tc_prog len_T bad_ctor_arity = None.
+Proof. vm_compute. reflexivity. Qed.
+
+(* what is left of T7: a match on a TUPLE needs no `_` arm: match (now, 0) { (0, 0) => 1, (1, _) => 2 } is accepted by typing.rs and by
+   the lenient configuration, rejected by the checker, and stuck in the third sample *)
+Definition res_match_tuple_nonexhaustive : xprogram :=
+  mkXProg [] [] [] [XMatch (XTuple [XNow; XLit 0]) [(MTup [MLit 0; MLit 0], XLit 1); (MTup [MLit 1; MWild], XLit 2)]].
+Lemma lenient_accepts_T7_tuple :
+  tc_prog an0 res_match_tuple_nonexhaustive = None /\ ret_of len0 res_match_tuple_nonexhaustive = Some TNum /\
+  xrun 20 res_match_tuple_nonexhaustive [[]; []; []] = Stuck E_NOMATCH.
+Proof. vm_compute. repeat split. Qed.
+(* what is left of T9: a constructor that carries a payload, without it, is a function value: let v = K1  1   and
+   fn ap(f : (float) -> T, x){ f(x) }  ...  match ap(K1, 2) { K1(y) => y, _ => 0 } *)
+Definition res_ctor_as_function : xprogram := mkXProg [] [] [(PVar 4%N, XCon 50%N 1 None)] [XLit 1].
+Definition res_ctor_passed_as_function : xprogram :=
+  mkXProg [GFun 1%N [(2%N, None); (3%N, None)] (XApp (XVar 2%N) [XVar 3%N])] [] []
+          [XMatch (XApp (XVar 1%N) [XCon 50%N 1 None; XLit 2]) [(MCon 1 (Some (PVar 4%N)), XVar 4%N); (MWild, XLit 0)]].
+Lemma lenient_accepts_T9_function_value :
+  tc_prog an_T res_ctor_as_function = None /\ ret_of len_T res_ctor_as_function = Some TNum /\
+  tc_prog (mkAnn [(2%N, TFn [TNum] ty_T)] [] sums_T) res_ctor_passed_as_function = None /\
+  ret_of (mkLenient [(2%N, TFn [TNum] ty_T)] [] sums_T) res_ctor_passed_as_function = Some TNum.
+Proof. vm_compute. repeat split. Qed.
+(* (what is left of T8 — an undeclared constructor name in a tuple pattern over a scrutinee whose type is not yet known — has no
+   counterpart here: every scrutinee of this checker has a type) *)
